@@ -63,6 +63,7 @@ pub fn run_clif(opc: u8) {
     // buffers the caller passes: no wrap; an empty buffer is passed as a null pointer (lib.rs wrappers, C09)
     kani::assume(mem.base.checked_add(mem.len).is_some() && mbuff.base.checked_add(mbuff.len).is_some() && stack_base.checked_add(512).is_some());
     kani::assume((mem.len == 0) == (mem.base == 0) && (mbuff.len == 0 || mbuff.base != 0) && stack_base != 0);
+    if crate::WITNESS_MODE { kani::assume(small_world_regions((mem.base, mem.len), (mbuff.base, mbuff.len), (stack_base, 512)) && mem.len > 0 && mbuff.len > 0); }
     let load_data: u64 = kani::any();
     let call_ret: u64 = kani::any();
     unsafe { ORACLE = Oracle { load_data, call_ret, params: [mem.base, mem.len, mbuff.base, mbuff.len], stack_base, init_vars: init }; }
